@@ -13,6 +13,7 @@ import multiprocessing
 import os
 import shutil
 import subprocess
+import re
 import sys
 import tempfile
 import threading
@@ -366,7 +367,8 @@ def _covered_by_known(witness, listed):
         if witness.get("check") != m.get("check"):
             continue
         args = witness.get("args", {})
-        if all(args.get(k) == v for k, v in m.get("args", {}).items()):
+        if all(args.get(k) == v for k, v in m.get("args", {}).items()) and \
+                all(re.search(rx, str(args.get(k, ""))) for k, rx in m.get("args_regex", {}).items()):
             return True
     return False
 
